@@ -172,6 +172,14 @@ fn tj_case(s: &mut Session, rng: &mut Rng, style: u64, big: bool) {
 }
 
 pub fn generate(s: &mut Session, tier: &str, rng: &mut Rng) {
+    // a target address spread over several chunks (third-party senders), every cut, several read patterns
+    match crate::craft::Crafter::new() {
+        Some(mut cr) => crate::c03::ss_legacy_split_address(s, &mut cr, rng, tier == "thorough"),
+        None => {
+            s.begin_case("no-driver");
+            s.oracle_fail("craft", "the Lean driver could not be started for Spec-side building");
+        }
+    }
     let reps = if tier == "thorough" { 12 } else { 1 };
     for _ in 0..reps {
         for cipher in CIPHERS {
